@@ -122,7 +122,7 @@ def ev_len(ints, i):
 
 def job(j):
     tag, comp, cases = j
-    return tag, core.eval_cases(comp, cases, impl_save if tag == 'save' else impl_load)
+    return tag, core.eval_cases(comp, cases, impl_save if tag == 'save' else impl_load, repeat=40)
 
 
 def mutate(rng, bs):
